@@ -2,6 +2,8 @@ import ExprModel.Api.Pipeline
 import ExprModel.Drv.Code
 import ExprModel.Drv.Parse
 import ExprModel.Gen.UnicodeTables
+import ExprModel.Drv.Types
+import ExprModel.Drv.Opt
 /- driver stage for the whole pipeline (`expr.Eval`): lexer, parser, compiler and VM models in a row -/
 namespace ExprModel.Drv
 open ExprModel ExprModel.Parser
@@ -24,6 +26,41 @@ def handleEvalSource : List Sexp → Sexp
     | _, _, _, _, _ => .list [.atom "bad-request"]
   | _ => .list [.atom "bad-request"]
 
-def pipelineHandlers : List (String × (List Sexp → Sexp)) := [("evalsource", handleEvalSource)]
+/-- `(compilesource <checker variant> <env types> <expect> <mapEnv> <optimize> <opt flags> <hex source>
+       (floats …) (badre …) <budget> (defects a b) <env value>)`:
+    the typed pipeline (`Api.runSource`: `expr.Compile(src, Env(env), Optimize(..), As…)` then `expr.Run`) →
+    `(err <stage> …)` or `(ok <program> <outcome of the run>)` -/
+def handleCompileSource : List Sexp → Sexp
+  | [.atom "compilesource", .atom d, envT, .atom ex, mapEnv, optimize, flags, src,
+      .list (.atom "floats" :: fl), .list (.atom "badre" :: br), budget, defects, env] =>
+    match defectsOfAtom (if d == "safefix" || d == "safefix2" || d == "safefix3" then "asis" else d), tdefectsOfAtom d,
+        envOfSexp envT, expectOfAtom ex, mapEnv.asBool, optimize.asBool, src.asStr, fl.mapM floatEntry, br.mapM Sexp.asStr,
+        budget.asInt, Val.ofSexp env with
+    | some (dn, _), some dt, some e, some ex, some me, some opt, some s, some floats, some bad, some b, some env =>
+      let F : Api.Front :=
+        { cc := Gen.goCharClass, tables := Gen.lexTables,
+          pcfg := { tb := Gen.parserTables, num := numOf floats, badRegex := fun p => bad.contains p } }
+      let T : Api.TypedCfg :=
+        { check := cfgOfEnv dn dt e true ex, mapEnv := me, optimize := opt, optFlags := optFlagsOfSexp flags }
+      let c : Cfg := { world := mkWorld [], env := env, budget := b, defects := defectsOfSexp defects }
+      match Api.runSource F T c 2000000 s with
+      | .ran cp res final => .list [.atom "ok", compiledToSexp cp, outcomeToSexp (res, final)]
+      | .notCompiled o =>
+        match o with
+        | .configError _ => .list [.atom "err", .atom "config"]
+        | .lexError _ => .list [.atom "err", .atom "lex"]
+        | .parseError _ => .list [.atom "err", .atom "parse"]
+        | .checkError (some l) c => .list ([.atom "err", .atom "check"] ++ locToSexp l ++ [.atom c.name])
+        | .checkError none c => .list [.atom "err", .atom "check", .atom "-1", .atom "-1", .atom c.name]
+        | .checkPanic _ => .list [.atom "err", .atom "checkpanic"]
+        | .patchPanic => .list [.atom "err", .atom "patchpanic"]
+        | .optimizeError l => .list ([.atom "err", .atom "optimize"] ++ locToSexp l)
+        | .compileError _ => .list [.atom "err", .atom "compile"]
+        | .ok .. => .list [.atom "err", .atom "unreachable"]
+    | _, _, _, _, _, _, _, _, _, _, _ => .list [.atom "bad-request"]
+  | _ => .list [.atom "bad-request"]
+
+def pipelineHandlers : List (String × (List Sexp → Sexp)) :=
+  [("evalsource", handleEvalSource), ("compilesource", handleCompileSource)]
 
 end ExprModel.Drv
